@@ -186,3 +186,69 @@ def forward_may(bf, starts, init, node_fn=None, edge_fn=None):
                 state[s] = old | vals
                 work.append(s)
     return state
+
+
+def path_conditions(bf, bb):
+    """necessary branch conditions for reaching block bb: list of (term of the switch discriminant, value)
+    where value is an int (switch value) or ('not', [values]) for the otherwise edge. Only switches with an
+    out-edge that every path to bb must take are listed."""
+    conds = []
+    body = bf.body
+    for b in body.blocks:
+        t = b.term
+        if b.cleanup or t.k != 'switch' or b.idx not in bf.cfg.reach:
+            continue
+        if not bf.cfg.dominates(b.idx, bb) or b.idx == bb:
+            continue
+        outs = {}
+        for v, tgt in t.targets:
+            outs.setdefault(tgt, []).append(v)
+        cands = []
+        for tgt, vals in outs.items():
+            if tgt != t.otherwise and bf.guarded_by_edges(bb, [(b.idx, tgt)]):
+                cands.append((vals, True))
+        if t.otherwise not in [tg for _, tg in t.targets] and bf.guarded_by_edges(bb, [(b.idx, t.otherwise)]):
+            cands.append(([v for v, _ in t.targets], False))
+        if len(cands) == 1:
+            vals, pos = cands[0]
+            d = t.discr
+            term = term_of_operand(bf, d)
+            conds.append((term, tuple(vals) if pos else ('not', tuple(vals)), b.idx))
+    return conds
+
+
+def cond_true(c):
+    """(term, val) means the boolean `term` is true"""
+    term, val = c[0], c[1]
+    return val == ('not', (0,)) or val == (1,)
+
+
+def cond_false(c):
+    return c[1] == (0,)
+
+
+def defs_with_conditions(bf, local):
+    """for a multiply-defined local: list of (value term, conditions, bb)"""
+    res = []
+    for (bb, si, kind, obj) in bf.whole_defs(local):
+        if kind == 'stmt' and obj.k == 'assign':
+            rv = obj.rv
+            if rv.k == 'use':
+                v = term_of_operand(bf, rv.ops[0])
+            elif rv.k == 'agg' and rv.d.get('ak') == 'adt':
+                nm = strip_generics(rv.d['adt']) + ('::' + rv.d['variant'] if rv.d.get('is_enum') else '')
+                fl = rv.d.get('fields', [])
+                v = ('agg', nm, tuple((fl[i] if i < len(fl) else str(i), term_of_operand(bf, o)) for i, o in enumerate(rv.ops)))
+            elif rv.k == 'bin':
+                v = (rv.d['op'], term_of_operand(bf, rv.ops[0]), term_of_operand(bf, rv.ops[1]))
+            elif rv.k == 'cast':
+                v = ('cast', rv.d['ty'], term_of_operand(bf, rv.ops[0]), rv.d.get('from'))
+            else:
+                v = ('other', rv.k)
+        elif kind == 'call':
+            t = obj
+            v = ('call', callee_name(t), tuple(term_of_operand(bf, a) for a in t.args), bb)
+        else:
+            v = ('other', kind)
+        res.append((v, path_conditions(bf, bb), bb))
+    return res
